@@ -321,6 +321,32 @@ func C08(tier string) int {
 			}
 		}
 	}
+	// Account names that contain a slash, next to a sibling named like their first component: the account addressed is
+	// the one whose whole name (everything after the first slash of the path) was given.
+	for _, names := range [][]string{{"sib", "sib/1", "sib/1/x"}, {"val", "val/"}} {
+		var as []*rig.Acct
+		for _, n := range names {
+			as = append(as, r.AddSymAccount("Wallet 1", n, "pass", true))
+		}
+		for i, a := range as {
+			for _, byKey := range []bool{false, true} {
+				name, key := "Wallet 1/"+names[i], []byte(nil)
+				if byKey {
+					name, key = "", a.PubBytes()
+				}
+				gd := make([]byte, 32)
+				gd[0] = 7
+				g := &rules.SignData{Domain: gd, Data: c08Root(byte(0x40 + i))}
+				res, sig := r.Signer.SignGeneric(r.Ctx, creds, name, key, g)
+				items = append(items, c08Item{acct: a, res: res, sig: sig, what: fmt.Sprintf("generic for account %q (bykey=%v) beside %v", names[i], byKey, names), root: model.SigningRoot(b32x(g.Data), gd)})
+				d := AttData(Ent{S: 1, T: 2, Root: 1 + i})
+				res, sig = r.Signer.SignBeaconAttestation(r.Ctx, creds, name, key, d)
+				items = append(items, c08Item{acct: a, res: res, sig: sig, what: fmt.Sprintf("attestation for account %q (bykey=%v) beside %v", names[i], byKey, names),
+					root: model.SigningRoot(AttRoot(Ent{S: 1, T: 2, Root: 1 + i}), AttDomain(0))})
+				classes["slash-name"] = true
+			}
+		}
+	}
 	cells += len(items)
 	sigsChecked += len(items)
 	samples.Add(map[string]any{"single": items[0].what})
@@ -425,7 +451,7 @@ func C08(tier string) int {
 	run.Coverage = map[string]any{
 		"evaluations":         cells,
 		"distinct_nontrivial": len(classes),
-		"rule":                "singles: attestation/proposal/generic requests over boundary values of slot, index, epochs, proposer index x 3 root fills x 2 domains x addressing with real BLS keys, verified with the BLS library against a signing root computed by an independent sha256 merkleisation; batches: attestation batches and multisign of every listed size x every listed GOMAXPROCS with per-entry data that is distinct as a whole while every single field (slot, committee index, roots, epochs; data and domain for multisign) is shared between some entries, mixed addressing, every fifth account of an attestation batch refused by the rules (it voted for a far later target before), symbolic keys (signature must be byte-equal to the addressed account's signature over the independent signing root; exactly n results and n signatures; signature i is not the one expected at i+1), every fourth size through the gRPC handler; reduced (n, procs) grid repeated with real BLS keys; distinct = request classes and (kind, n, procs) cells",
+		"rule":                "singles: attestation/proposal/generic requests over boundary values of slot, index, epochs, proposer index x 3 root fills x 2 domains x addressing with real BLS keys, plus accounts whose names contain slashes beside siblings named like their first component, verified with the BLS library against a signing root computed by an independent sha256 merkleisation; batches: attestation batches and multisign of every listed size x every listed GOMAXPROCS with per-entry data that is distinct as a whole while every single field (slot, committee index, roots, epochs; data and domain for multisign) is shared between some entries, mixed addressing, every fifth account of an attestation batch refused by the rules (it voted for a far later target before), symbolic keys (signature must be byte-equal to the addressed account's signature over the independent signing root; exactly n results and n signatures; signature i is not the one expected at i+1), every fourth size through the gRPC handler; reduced (n, procs) grid repeated with real BLS keys; distinct = request classes and (kind, n, procs) cells",
 		"samples":             samples.List(),
 		"exhaustive":          true,
 		"signatures_verified": sigsChecked - int(c08Unsigned.Load()),
